@@ -76,6 +76,7 @@ def run(rep):
     for (rule, key), v in sorted(viols.items()):
         rep.obligations += 0
         rep.violations.append({"rule": rule, "key": key, "where": "include/boost/gil/image.hpp " + v["where"], "detail": {"problem": v["detail"], "example_path": v["path"][-600:], "paths": v["count"], "configurations": sorted(v["configs"])}})
+    rollback_rules(rep)
     rep.floor("members", 100)
     rep.floor("config:interleaved/sticky", 20)
 
@@ -99,3 +100,94 @@ def construct_key(c):
     c = re.sub(r"line \d+", "line", c)
     c = re.sub(r"#\d+", "", c)
     return c
+
+
+def rollback_rules(rep):
+    """I7: the roll-back loops of the uninitialized_* / default_construct algorithms (instantiated with trivial elements: the
+    catch blocks are part of the instantiated AST all the same)"""
+    import re
+    from .ast import rules as R
+    rep.rule("I7 every try/catch of uninitialized_fill_pixels, uninitialized_copy_pixels, default_construct_pixels(_impl) and their planar helpers: "
+             "the try block constructs unit k for k = 0,1,.. with a counter declared before the try; the handler destroys exactly the units "
+             "0 <= k0 < k (loop from 0, condition `< counter`, increment) of the same destination and rethrows")
+    wd = C.workdir("C10rb")
+    d = C.astdump(os.path.join(C.DRIVERS, "c10_driver.cpp"), os.path.join(wd, "rb.json"),
+                  ['^boost::gil::(uninitialized_fill_pixels|uninitialized_copy_pixels|default_construct_pixels)$',
+                   '^boost::gil::detail::(uninitialized_fill_aux|uninitialized_copy_aux|default_construct_aux|default_construct_pixels_impl)$'])
+    if d.get("errors"):
+        raise C.AnalysisBroken("drivers/c10_driver.cpp has compile errors")
+    seen = {}
+    for f in d["functions"]:
+        for t, _ in R.find(f["body"], lambda x: x.get("k") == "Try"):
+            fname = f["name"].split("::")[-1]
+            key = "I7:%s" % fname
+            where = "%s:%s" % (C.repo_rel(f["file"]), t.get("line"))
+            # counter: the variable of the try block's loop (for: cond `v < N`; while: cond `v < N`)
+            loops = [x for x, _ in R.find(t["block"], lambda x: x.get("k") in ("For", "While"))]
+            hs = t.get("handlers", [])
+            prob = None
+            if len(loops) != 1 or len(hs) != 1 or not hs[0].get("all"):
+                prob = "unrecognised try shape (%d loops, %d handlers)" % (len(loops), len(hs))
+            else:
+                c = R.strip(loops[0]["cond"])
+                counter = R.key(c["l"]) if c.get("k") == "Binary" and c.get("op") == "<" else None
+                hb = R.strip(hs[0]["body"])
+                items = [R.strip(x) for x in hb.get("c", [])] if hb.get("k") == "Compound" else [hb]
+                rl = [x for x in items if x.get("k") == "For"]
+                rethrow = bool(items) and items[-1].get("k") == "Throw" and items[-1].get("e") is None
+                if counter is None:
+                    prob = "loop condition of the try block is not `counter < bound`"
+                elif len(rl) != 1:
+                    prob = "handler has %d roll-back loops" % len(rl)
+                elif not rethrow:
+                    prob = "handler does not end in a rethrow"
+                else:
+                    r = rl[0]
+                    init = R.strip(r.get("init"))
+                    iv, i0 = None, None
+                    if init is not None and init.get("k") == "Decl" and len(init["decls"]) == 1:
+                        iv, i0 = init["decls"][0]["name"], R.key(init["decls"][0].get("init"))
+                    rc = R.strip(r.get("cond"))
+                    rk = (rc.get("op"), R.key(rc["l"]), R.key(rc["r"])) if rc is not None and rc.get("k") == "Binary" else None
+                    inc = R.key(r.get("inc")) if r.get("inc") is not None else None
+                    # the index set destroyed by the loop, as [lo, hi): ascending `for (iv = a; iv < b; ++iv)` or descending
+                    # `for (iv = a; iv > b; --iv)`, with the unit index `iv` or `iv - 1`
+                    body_keys = " ".join(R.key(x) for x, _ in R.find(r.get("body"), lambda x: x.get("k") == "Call"))
+                    off = -1 if iv and re.search(r"\(%s - 1\)" % re.escape(iv), body_keys) else 0
+                    rng = None
+                    if iv is not None and rk is not None and rk[1] == iv:
+                        if rk[0] == "<" and inc in ("(++%s)" % iv, "(%s++)" % iv):
+                            rng = (i0 if off == 0 else "%s-1" % i0, rk[2] if off == 0 else "%s-1" % rk[2])
+                        elif rk[0] == ">" and inc in ("(--%s)" % iv, "(%s--)" % iv):
+                            lo = {"0": 1, "-1": 0}.get(rk[2])
+                            if lo is not None:
+                                rng = (str(lo + off), i0 if off == -1 else "%s+1" % i0)
+                    ok_loop = rng == ("0", counter)
+                    loop_unrecognised = rng is None
+                    # destroyed unit = constructed unit with counter -> iv (destination arguments only)
+                    ccall = [R.key(x) for x, _ in R.find(loops[0].get("body") if loops[0].get("k") == "For" else loops[0].get("body"), lambda x: x.get("k") == "Call")]
+                    dcall = [R.key(x) for x, _ in R.find(r.get("body"), lambda x: x.get("k") == "Call" and "destruct" in x["callee"]["name"])]
+                    units_c = set(re.findall(r"(\w+)\.row_(?:begin|end)\(%s\)" % re.escape(counter), " ".join(ccall))) | set(re.findall(r"dynamic_at_c\((\w+),%s\)" % re.escape(counter), " ".join(ccall)))
+                    units_d = set(re.findall(r"(\w+)\.row_(?:begin|end)\(%s\)" % re.escape(iv or "?"), " ".join(dcall))) | set(re.findall(r"dynamic_at_c\((\w+),%s\)" % re.escape(iv or "?"), " ".join(dcall)))
+                    # the destination is the last view / iterator pair named in the constructing call
+                    first_d = re.search(r"(?:dynamic_at_c\((\w+),%s\)|(\w+)\.row_begin\(%s\))" % (re.escape(iv or "?"), re.escape(iv or "?")), " ".join(dcall))
+                    begin_d = (first_d.group(1) or first_d.group(2)) if first_d else None
+                    # the destroyed range starts at a destination the try block constructs into (its end may be recomputed in the handler)
+                    ok_unit = begin_d is not None and begin_d in units_c
+                    if loop_unrecognised:
+                        prob = "unrecognised roll-back loop `for (%s = %s; %s; %s)`" % (iv, i0, " ".join(rk) if rk else "?", inc)
+                    elif not ok_loop:
+                        prob = "roll-back loop `for (%s = %s; %s; %s)` destroys the units [%s, %s), the try block constructed [0, %s)" % (iv, i0, " ".join(rk) if rk else "?", inc, rng[0], rng[1], counter)
+                    elif not ok_unit:
+                        prob = "roll-back destroys %s, the try block constructs %s" % (sorted(units_d), sorted(units_c))
+            if key not in seen or (seen[key][0] is None and prob is not None):
+                seen[key] = (prob, where)
+    for key, (prob, where) in sorted(seen.items()):
+        rep.count("obligations:I7")
+        if prob is None:
+            rep.ok("I7-rollback", key, "destroys units [0, counter)")
+        elif prob.startswith("unrecognised"):
+            rep.fail_analysis("%s: %s" % (key, prob))
+        else:
+            rep.violation("I7-rollback", key, where, {"problem": prob + ": after a throwing construction some constructed elements are not destroyed and some unconstructed ones are"})
+    rep.floor("obligations:I7", 6)
